@@ -626,6 +626,54 @@ func c08Ring(t *rapid.T, ev *evProp) {
 			}
 		}
 	}
+	if (name == "ed25519" || name == "edvar") && rapid.IntRange(0, 3).Draw(t, "tagtorsion") == 0 {
+		// The linkage tag is part of what is signed.  On a curve with a cofactor a tag T' = T + D with
+		// D of small order satisfies every verification equation whose challenge is a multiple of
+		// D's order, so the tag is bound ONLY through the challenge hash: a small ring (every
+		// challenge even with probability 2^-n), several fresh signatures, every scope shape
+		// (empty-but-linkable included), and the tag field replaced by T + D.  Every one of them
+		// must be refused - an accepted one returns a second tag for the same key and scope.
+		n2 := rapid.SampledFrom([]int{1, 1, 1, 2, 2, 3}).Draw(t, "tt.n")
+		m2 := rapid.IntRange(0, n2-1).Draw(t, "tt.mine")
+		sc2 := rapid.SampledFrom([][]byte{{}, {}, scope, []byte("s")}).Draw(t, "tt.scope")
+		if sc2 == nil {
+			sc2 = []byte{}
+		}
+		r2 := make(anon.Set, n2)
+		for i := range r2 {
+			r2[i] = suite.Point().Mul(suite.Scalar().Pick(ks), nil)
+		}
+		r2[m2] = ring[mine]
+		// D: the point of order 2 (0,-1), or one of order 4 (sqrt(-1), 0) / (-sqrt(-1), 0)
+		dEnc := rapid.SampledFrom([]string{
+			"ecffffffffffffffffffffffffffffffffffffffffffffffffffffffffffff7f",
+			"ecffffffffffffffffffffffffffffffffffffffffffffffffffffffffffff7f",
+			"0000000000000000000000000000000000000000000000000000000000000000",
+			"0000000000000000000000000000000000000000000000000000000000000080"}).Draw(t, "tt.D")
+		D := suite.Point()
+		if err := D.UnmarshalBinary(mustHex(dEnc)); err == nil {
+			pl := suite.PointLen()
+			for try := 0; try < 6; try++ {
+				sg := anon.Sign(suite, msg, r2, sc2, m2, privs[mine])
+				T := suite.Point()
+				if len(sg) < pl || T.UnmarshalBinary(sg[len(sg)-pl:]) != nil {
+					break
+				}
+				forged := append(append([]byte(nil), sg[:len(sg)-pl]...), mustMarshal(t, suite.Point().Add(T, D))...)
+				var ft []byte
+				var ferr error
+				if pn := safely(func() { ft, ferr = anon.Verify(suite, msg, r2, sc2, forged) }); pn != "" {
+					violationOrKnown(t, ev, "C04/ring/"+name+"/verify-panic", "anon.Verify panicked on a signature whose tag was shifted by a small-order point: %s\n%s", pn, ctx)
+					break
+				}
+				if ferr == nil {
+					violationOrKnown(t, ev, "C08/ring/"+name+"/tag-malleable", "a linkable signature (ring size %d, scope %x) whose tag field was replaced by tag + (point of small order %s) verifies and returns tag %x; the honest tag is %x\n%s", n2, sc2, dEnc[:8], ft, sg[len(sg)-pl:], ctx)
+					break
+				}
+			}
+			ev.Label("ring-tag-torsion")
+		}
+	}
 	mut := rapid.SampledFrom([]string{"msg", "replace-member", "permute-ring", "scope", "sigbitflip", "sigbitflip", "sigbitflip", "truncate", "link-same", "link-otherkey", "link-otherscope", "drop-member"}).Draw(t, "mut")
 	expectReject := true
 	var verr error
